@@ -113,6 +113,23 @@ def _cases_core(rng, tier):
             j = rng.randrange(len(cs))
             cs[j] = rng.choice([c for c in B58 if c != cs[j]])
             yield "wallet xkey:%s" % sx("".join(cs)), "wallet-corrupt"
+    # public keys at the boundaries of the coordinate range (x just below p, x in [n, p), tiny x, …)
+    for sec33 in common.boundary_points():
+        depth = rng.choice([0, 1, 3, 255])
+        fp = bytes(4) if depth == 0 else bytes(rng.getrandbits(8) for _ in range(4)) or b"\x01\x02\x03\x04"
+        index = 0 if depth == 0 else rng.choice([0, 5, 2 ** 31, 2 ** 32 - 1])
+        chain = bytes(rng.getrandbits(8) for _ in range(32))
+        t = rng.choice("01")
+        names = [nme for nme in ALL if nme.endswith("pub")]
+        for name in (names if tier == "thorough" else rng.sample(names, 2)):
+            pl = payload(ALL[name], depth, fp, index, chain, sec33)
+            s_ = b58check_enc(pl)
+            yield "xk_parse p %s s %s" % (t, sx(s_)), "boundary-point-str"
+            yield "xk_parse p %s b %s" % (t, hx(pl)), "boundary-point-bytes"
+            yield "xk_parse p %s io %s" % (t, hx(pl)), "boundary-point-stream"
+            yield "wallet xkey:%s" % sx(s_), "boundary-point-wallet"
+            spec = "p:%s:%s:%d:%d:%s:%s" % (hx(sec33), hx(chain), depth, index, t, "none" if depth == 0 else hx(fp))
+            yield "xk_ser %s - pub %d" % (spec, ALL[name]), "boundary-point-ser"
     for _ in range(n):
         a, _k = node_spec(rng, prv=True)
         b = a if rng.random() < 0.5 else node_spec(rng, prv=True)[0]
